@@ -897,14 +897,14 @@ theorem freerec_none (e : Bool) (r : Rec) (hd : r.data.isSome = true) (h : (free
 
 /-- the index Browse leaves in the real store (`ea` is its ghost field): skipped records stay, visited ones are
     loaded, flagged, and possibly dropped again -/
-def mixL (all : Bool) (w : List (Key × Nat)) (ea : Bool) : List (Key × Rec) → List (Key × Rec) → List (Key × Rec)
+def mixL (all : Bool) (w : List (Key × Nat)) (vs : Option (List Key)) (ea : Bool) : List (Key × Rec) → List (Key × Rec) → List (Key × Rec)
   | (ka, ra) :: ta, (kg, rg) :: tg =>
-      (if !all && hasFlag rg.flags NO_BROWSE then (ka, ra)
-       else (kg, freerec ea { rg with flags := applyBrowsingFlags rg.flags (walkRes w kg) })) :: mixL all w ea ta tg
+      (if skipB all vs rg.flags kg then (ka, ra)
+       else (kg, freerec ea { rg with flags := applyBrowsingFlags rg.flags (walkRes w kg) })) :: mixL all w vs ea ta tg
   | _, _ => []
 
-theorem mixL_subL (all : Bool) (w : List (Key × Nat)) (ea : Bool) (la lg : List (Key × Rec)) (h : SubL la lg) :
-    SubL (mixL all w ea la lg) (lg.map (browseRec all w)) := by
+theorem mixL_subL (all : Bool) (w : List (Key × Nat)) (vs : Option (List Key)) (ea : Bool) (la lg : List (Key × Rec)) (h : SubL la lg) :
+    SubL (mixL all w vs ea la lg) (lg.map (browseRec all w vs)) := by
   induction la generalizing lg with
   | nil =>
     cases lg with
@@ -918,12 +918,12 @@ theorem mixL_subL (all : Bool) (w : List (Key × Nat)) (ea : Bool) (la lg : List
       obtain ⟨kg, rg⟩ := y
       obtain ⟨rfl, hs, ht⟩ := h
       simp only [mixL, List.map_cons]
-      by_cases hb : (!all && hasFlag rg.flags NO_BROWSE) = true
-      · have e : browseRec all w (ka, rg) = (ka, rg) := by unfold browseRec; simp only [hb, ↓reduceIte]
+      by_cases hb : skipB all vs rg.flags ka = true
+      · have e : browseRec all w vs (ka, rg) = (ka, rg) := by unfold browseRec; simp only [hb, ↓reduceIte]
         rw [e]
         simp only [hb, ↓reduceIte]
         exact ⟨rfl, hs, ih tg ht⟩
-      · have e : browseRec all w (ka, rg) = (ka, { rg with flags := applyBrowsingFlags rg.flags (walkRes w ka) }) := by
+      · have e : browseRec all w vs (ka, rg) = (ka, { rg with flags := applyBrowsingFlags rg.flags (walkRes w ka) }) := by
           unfold browseRec; simp [hb]
         rw [e]
         simp only [hb, Bool.false_eq_true, ↓reduceIte]
@@ -931,8 +931,8 @@ theorem mixL_subL (all : Bool) (w : List (Key × Nat)) (ea : Bool) (la lg : List
 
 /-- a record of the new index comes from a record of the old one at the same place on disk; if it is not in memory,
     the old one was not in memory or is on disk -/
-theorem mixL_lookup (all : Bool) (w : List (Key × Nat)) (ea : Bool) (la lg : List (Key × Rec)) (h : SubL la lg)
-    (hc : ∀ kr ∈ lg, kr.2.data.isSome = true) (k : Key) (r : Rec) (hl : ilookup k (mixL all w ea la lg) = some r) :
+theorem mixL_lookup (all : Bool) (w : List (Key × Nat)) (vs : Option (List Key)) (ea : Bool) (la lg : List (Key × Rec)) (h : SubL la lg)
+    (hc : ∀ kr ∈ lg, kr.2.data.isSome = true) (k : Key) (r : Rec) (hl : ilookup k (mixL all w vs ea la lg) = some r) :
     ∃ ra, ilookup k la = some ra ∧ ra.pos = r.pos ∧ (r.data = none → ra.data = none ∨ ra.pos ≠ 0) := by
   induction la generalizing lg with
   | nil =>
@@ -948,7 +948,7 @@ theorem mixL_lookup (all : Bool) (w : List (Key × Nat)) (ea : Bool) (la lg : Li
       obtain ⟨rfl, hs, ht⟩ := h
       have hcg := hc (ka, rg) List.mem_cons_self
       simp only [mixL] at hl
-      by_cases hb : (!all && hasFlag rg.flags NO_BROWSE) = true
+      by_cases hb : skipB all vs rg.flags ka = true
       · simp only [hb, ↓reduceIte, ilookup] at hl ⊢
         by_cases hk : ka = k
         · subst hk
@@ -969,12 +969,12 @@ theorem mixL_lookup (all : Bool) (w : List (Key × Nat)) (ea : Bool) (la lg : Li
         · simp only [hk, ↓reduceIte] at hl ⊢
           exact ih tg ht (fun x hx => hc x (List.mem_cons_of_mem _ hx)) hl
 
-theorem browseFold_lz (all : Bool) (w : List (Key × Nat)) (db : DB) (hf : db.failed = none)
+theorem browseFold_lz (all : Bool) (w : List (Key × Nat)) (vs : Option (List Key)) (db : DB) (hf : db.failed = none)
     (la lg : List (Key × Rec)) (hs : SubL la lg)
     (hload : ∀ k ra rg, (k, ra) ∈ la → (k, rg) ∈ lg → Sub ra rg → Qdb.loadrec db.fs ra = some rg)
     (acc : List (Key × Rec)) (out : List (Key × Bytes)) :
-    la.foldl (browseStep all w) (db, acc, out) =
-      (db, acc ++ mixL all w db.eager la lg, out ++ lg.filterMap (browseOut all)) := by
+    la.foldl (browseStep all w vs) (db, acc, out) =
+      (db, acc ++ mixL all w vs db.eager la lg, out ++ lg.filterMap (browseOut all vs)) := by
   induction la generalizing lg acc out with
   | nil =>
     cases lg with
@@ -988,13 +988,13 @@ theorem browseFold_lz (all : Bool) (w : List (Key × Nat)) (db : DB) (hf : db.fa
       obtain ⟨kg, rg⟩ := y
       obtain ⟨rfl, hsub, ht⟩ := hs
       have hfl : ra.flags = rg.flags := hsub.fields.2.2.2
-      have hstep : browseStep all w (db, acc, out) (ka, ra) =
-          (db, acc ++ [if !all && hasFlag rg.flags NO_BROWSE then (ka, ra)
+      have hstep : browseStep all w vs (db, acc, out) (ka, ra) =
+          (db, acc ++ [if skipB all vs rg.flags ka then (ka, ra)
             else (ka, freerec db.eager { rg with flags := applyBrowsingFlags rg.flags (walkRes w ka) })],
-           out ++ (browseOut all (ka, rg)).toList) := by
+           out ++ (browseOut all vs (ka, rg)).toList) := by
         unfold browseStep browseOut
         simp only [hf, hfl]
-        by_cases hb : (!all && hasFlag rg.flags NO_BROWSE) = true
+        by_cases hb : skipB all vs rg.flags ka = true
         · simp [hb]
         · simp only [hb, ↓reduceIte]
           rw [hload ka ra rg List.mem_cons_self List.mem_cons_self hsub]
@@ -1003,7 +1003,20 @@ theorem browseFold_lz (all : Bool) (w : List (Key × Nat)) (db : DB) (hf : db.fa
       rw [ih tg ht
         (fun k r1 r2 h1 h2 h3 => hload k r1 r2 (List.mem_cons_of_mem _ h1) (List.mem_cons_of_mem _ h2) h3)]
       simp only [mixL, List.filterMap_cons]
-      cases hb : browseOut all (ka, rg) <;> simp
+      cases hb : browseOut all vs (ka, rg) <;> simp
+
+/-- eligibility looks at keys and flag words only: the real store's index and its ghost's give the same visit set -/
+theorem eligible_subL (all : Bool) {la lg : List (Key × Rec)} (h : SubL la lg) (k : Key) :
+    eligible Rec.flags all la k = eligible Rec.flags all lg k := by
+  unfold eligible
+  rcases h.lookup k with ⟨h1, h2⟩ | ⟨ra, rg, h1, h2, hs⟩
+  · rw [h1, h2]
+  · rw [h1, h2]; simp only [hs.fields.2.2.2]
+
+theorem vsOf_lz (all : Bool) {P : List Key} {a g : DB} (h : Lz P a g) (w : List (Key × Nat)) :
+    vsOf all a w = vsOf all g w := by
+  unfold vsOf visitSet
+  exact visitSetAux_congr _ _ (eligible_subL all h.idx) w []
 
 theorem browseGen_lz (all : Bool) {P : List Key} {a g : DB} (h : Lz P a g) (hc : Cached g) (hnd : (Keys g.index).Nodup)
     (hl : Loads a g) (w : List (Key × Nat)) (hw : WalkOK true w) :
@@ -1011,24 +1024,26 @@ theorem browseGen_lz (all : Bool) {P : List Key} {a g : DB} (h : Lz P a g) (hc :
   have hfa : a.failed = none := h.failed.trans hc.1
   obtain ⟨g1, g2⟩ := browseGen_cached all g w hc (by rw [h.ge]; exact hw)
   have hnda : (Keys a.index).Nodup := by rw [h.idx.keys]; exact hnd
-  have hfold := browseFold_lz all w a hfa a.index g.index h.idx
+  have hvs : visitSet Rec.flags all a.index w = vsOf all g w := vsOf_lz all h w
+  generalize vsOf all g w = vs at hvs g1 g2
+  have hfold := browseFold_lz all w vs a hfa a.index g.index h.idx
     (fun k ra rg h1 h2 h3 => hl k ra rg (ilookup_of_mem_nodup _ hnda k ra h1)
       (ilookup_of_mem_nodup _ hnd k rg h2) h3) [] []
-  have ea : browseGen all a w = ({ a with index := mixL all w a.eager a.index g.index }, g.index.filterMap (browseOut all)) := by
+  have ea : browseGen all a w = ({ a with index := mixL all w vs a.eager a.index g.index }, g.index.filterMap (browseOut all vs)) := by
     unfold browseGen
     simp only [hfa, Option.isSome_none, Bool.false_eq_true, ↓reduceIte]
-    rw [hfold]
+    rw [hvs, hfold]
     simp [hfa]
   rw [ea, g1, g2]
   have hcd : ∀ kr ∈ g.index, kr.2.data.isSome = true := fun kr hkr => (hc.2 kr hkr).1
-  refine ⟨⟨h.sh, mixL_subL all w _ _ _ h.idx, ?_, ?_, h.ge⟩, rfl⟩
+  refine ⟨⟨h.sh, mixL_subL all w vs _ _ _ h.idx, ?_, ?_, h.ge⟩, rfl⟩
   · intro k r hlk hd
-    obtain ⟨ra, h1, h2, h3⟩ := mixL_lookup all w a.eager _ _ h.idx hcd k r hlk
+    obtain ⟨ra, h1, h2, h3⟩ := mixL_lookup all w vs a.eager _ _ h.idx hcd k r hlk
     rcases h3 hd with h4 | h4
     · exact h.np k ra h1 h4
     · exact h.pz k ra h1 h4
   · intro k r hlk hp
-    obtain ⟨ra, h1, h2, _⟩ := mixL_lookup all w a.eager _ _ h.idx hcd k r hlk
+    obtain ⟨ra, h1, h2, _⟩ := mixL_lookup all w vs a.eager _ _ h.idx hcd k r hlk
     exact h.pz k ra h1 (by rw [h2]; exact hp)
 
 /-! ### every operation of a non-volatile store other than a reopen -/
@@ -1389,11 +1404,11 @@ def twinItem : HItem → HItem
 /-- the same history in which every NewDBExt loads the data at once — run by the eager ghost -/
 def twin (H : List HItem) : List HItem := H.map twinItem
 
-/-- what a walk function of Browse may return: any 32-bit word (NO_CACHE, NO_BROWSE, YES_CACHE, YES_BROWSE and every
-    meaningless bit included) WITHOUT the BR_ABORT bit — the model's Browse always visits every record (the real one
-    stops after the record whose walk result carries BR_ABORT; which records it has visited by then depends on Go's map
-    order) -/
-def WalkOK5 (w : List (Key × Nat)) : Prop := ∀ kf ∈ w, kf.2 < 2^32 ∧ hasFlag kf.2 BR_ABORT = false
+/-- what a walk function of Browse may return: ANY 32-bit word — NO_CACHE, NO_BROWSE, YES_CACHE, YES_BROWSE, every
+    meaningless bit, and BR_ABORT in any combination with them. When an answer carries BR_ABORT the order of the list is
+    the order in which Go's map iteration presents the listed keys (Model.Qdb.visitSet): the statement holds for every
+    list, i.e. for every order Go can take and every point at which the browse can stop. -/
+def WalkOK5 (w : List (Key × Nat)) : Prop := ∀ kf ∈ w, kf.2 < 2^32
 
 /-- the operations of the real store: ANY flags (32-bit, NO_CACHE included) in PutExt / ApplyFlags / walk results,
     Close + NewDBExt in ANY mode with ANY LoadData -/
@@ -1410,7 +1425,7 @@ theorem opOK3_twin (op : Op) (h : OpOK5 op) : OpOK3 true (twinOp op) := by
   cases op with
   | putExt k v f => exact hasFlag_big32 f h
   | applyFlags k fl => exact hasFlag_big32 fl h
-  | browse w => exact fun kf hkf => hasFlag_big32 kf.2 (h kf hkf).1
+  | browse w => exact fun kf hkf => hasFlag_big32 kf.2 (h kf hkf)
   | reopen vol load opts => rfl
   | put k v => trivial
   | del k => trivial
